@@ -279,6 +279,27 @@ fn scn_configs(o: &Opts, tr: &mut Tr, prop: &str) {
             }
         }
     }
+    if prop == "C10" || prop == "C09" || prop == "C02" {
+        // configurations reached through the setters (set_compression_level[_raw], set_format_and_level)
+        // from a compressor created without match finding: must be the configuration of that level
+        let mut k = 0usize;
+        for api in ["set0", "setH", "setN", "set9", "setR"] {
+            for lvl in [1u8, 2, 6, 9, 10] {
+                for zl in [true, false] {
+                    k += 1;
+                    if !o.thorough && (k + o.seed as usize) % 2 == 0 { continue; }
+                    let x = gen::data("rand", 3000, &mut r);
+                    let mut d = x.clone();
+                    d.extend_from_slice(&x);
+                    let cfg = Cfg { zlib: zl, level: lvl, strat: 0, wbits: 15, api };
+                    let id = format!("xxset-{}-l{}-{}", api, lvl, zl);
+                    tr.redundant = true;
+                    stream_comp_case(tr, &id, prop, &d, &cfg, &big_out_sched(), &mut r, "xx");
+                    tr.redundant = false;
+                }
+            }
+        }
+    }
     if prop == "C10" {
         // redundancy is exploited: X ++ X
         let sizes: Vec<usize> = if o.thorough { vec![1000, 2500, 5000, 16000, 30000] } else { vec![1000, 6000] };
